@@ -93,6 +93,14 @@ func (e *Exec) runBlock(w work) ([]work, *Outcome) {
 			if c.IsFalse() {
 				return []work{{st, fr, f, blk, 0}}, nil
 			}
+			if m := constFacts(st.PC); len(m) > 0 {
+				if c2 := e.C.Subst(c, m); c2.IsConst() {
+					if c2.IsTrue() {
+						return []work{{st, fr, t, blk, 0}}, nil
+					}
+					return []work{{st, fr, f, blk, 0}}, nil
+				}
+			}
 			if e.tryMergeTriangle(st, fr, blk, c) {
 				return []work{{st, fr, e.mergedJoin, blk, e.mergedIdx}}, nil
 			}
